@@ -214,7 +214,9 @@ class Spec(core.PropSpec):
         return dict(stack=stack, mode=mode, return_ctx=need_ctx, K=ro.choice([1, 2, 2, 3, 4]),
                     betas=[ro.randint(0, 2 ** 40) for _ in range(3)], batch_size=ro.choice([1, 2, 3]), n_batches=ro.randint(1, 4 if tier == "quick" else 8),
                     hook=ro.random() < 0.93, clobbers=[ro.choice([None, ["np", ro.randint(0, 99)], ["torch", 1], ["py", 2]]) for _ in range(4)],
-                    sched_seed=ro.getrandbits(32), amb_main=rw.getrandbits(30), main_hook_rank=ro.choice([None, None, None, 0, 1]))
+                    sched_seed=ro.getrandbits(32), amb_main=rw.getrandbits(30), main_hook_rank=ro.choice([None, None, None, 0, 1]),
+                    start_method=core.Streams(seed)("preempt").choice(["fork", "fork", "spawn"]),
+                    preempt_rate=core.Streams(seed)("preempt2").choice([0, 0, 0, 0.05, 0.3]))
 
     def shrink_candidates(self, plan):
         st = plan["stack"]
@@ -316,6 +318,9 @@ class Spec(core.PropSpec):
             class Ld(SimDataLoader):
                 chooser = Chooser(seed=f"{plan['sched_seed']}/{len(sessions)}")
                 trace = []
+                start_method = plan.get("start_method", "fork")
+                preempt = dict(seed=f"{plan['sched_seed']}/{len(sessions)}", rate=plan["preempt_rate"]) if plan.get("preempt_rate") else None
+                switches = 0
 
                 @staticmethod
                 def post_init_probe(worker):
@@ -336,6 +341,8 @@ class Spec(core.PropSpec):
                         for b in isamp.get_data_loader(num_workers=K):
                             rec["delivered"].append(h(b))
                 rec["sched"] = Ld.trace
+                if Ld.switches:
+                    out.count("fault:worker_preempted_inside_a_sample", Ld.switches)
                 sessions.append(rec)
                 out.count("fault:worker_respawn", K)
                 return rec
@@ -346,6 +353,10 @@ class Spec(core.PropSpec):
                 for b in Ld(ds, **kw):
                     rec["delivered"].append(h(b))
             rec["sched"] = Ld.trace
+            if Ld.switches:
+                out.count("fault:worker_preempted_inside_a_sample", Ld.switches)
+            if Ld.start_method == "spawn":
+                out.count("fault:workers_started_with_spawn")
             sessions.append(rec)
             out.count("fault:worker_respawn", K)
             return rec
